@@ -54,6 +54,8 @@ func c06E2EWant(c *c06Case) []c06E2ERec {
 	return want
 }
 
+var c06E2EStartMu sync.Mutex
+
 func c06E2ERun(base string, id int, c *c06Case) *c06E2EMismatch {
 	dir, err := os.MkdirTemp(base, fmt.Sprintf("e2e-%d-", id))
 	if err != nil {
@@ -102,7 +104,9 @@ func c06E2ERun(base string, id int, c *c06Case) *c06E2EMismatch {
 		mu.Unlock()
 	})
 	want := c06E2EWant(c)
+	c06E2EStartMu.Lock() // file.d starts its pipelines one after another (Plugin.Start writes a package-level map)
 	p.Start()
+	c06E2EStartMu.Unlock()
 	deadline := time.Now().Add(3 * time.Second)
 	for time.Now().Before(deadline) {
 		mu.Lock()
